@@ -131,6 +131,19 @@ impl TargetActorHelper {
         }
     }
 
+    /// Acknowledges a requester registered after the target was already executed:
+    /// it was not among the requesters notified by `notify_success`.
+    pub async fn notify_late_requester(&self, kind: ExecutionKind, requester: ActorId) {
+        if self.executed {
+            let msg = ActorInputMessage::Ok {
+                kind,
+                target_id: self.target_id.clone(),
+                actual: true,
+            };
+            self.send_to_actor(requester, msg).await
+        }
+    }
+
     pub async fn request_dependencies(&self, kind: ExecutionKind) {
         self.send_to_dependencies(ActorInputMessage::Requested {
             kind,
